@@ -46,6 +46,12 @@ Theorem C14_clone_complete : clone_rows_complete style_clone_rows = true.
 Proof. exact style_clone_complete. Qed.
 Print Assumptions C14_clone_complete.
 
+(* and every struct type a style can hold (table regenerated from the type declarations of pkg/style) is built afresh
+   by a clone function: nothing reachable from a cloned style is shared with its source *)
+Theorem C14_clone_deep : clone_types_covered style_clone_rows style_reachable_types = true.
+Proof. exact style_clone_deep. Qed.
+Print Assumptions C14_clone_deep.
+
 Theorem C14_example_cycles :
   resolve_top cyc 1%N = Resolved (mkSty (Some 2%N) (Some [("Spacing"%string, 10%N); ("Justification"%string, 20%N)]) (Some [("Bold"%string, 22%N)]) None)
   /\ resolve_top cyc 3%N = Resolved (mkSty (Some 3%N) None (Some [("Italic"%string, 30%N)]) None).
